@@ -1,1 +1,147 @@
-/- C19 — property theorems (stub: the slice is not built yet). -/
+import GB.C19.Proofs
+import GB.Generated.Facts
+/-
+  C19 — property theorems.  `dispatch` is `WebBridge.ServeHTTP` (bridge.go, after fix D18),
+  `parseMetadataQuery` is webbridge/webbridge.go; `HasToken`, `BeginsWithFold`, `collect` are the
+  declarative specification of GB/C19/Spec.lean.  Every theorem quantifies over ALL header values /
+  multiplicities and ALL queries.
+-/
+set_option linter.unusedSimpArgs false
+set_option linter.unusedVariables false
+open GB GB.C19
+
+theorem C19_aux_up : ∀ d ∈ tokUpgrade, isOWS d = false := by decide
+theorem C19_aux_ws : ∀ d ∈ tokWebsocket, isOWS d = false := by decide
+theorem C19_aux_gw : ∀ d ∈ tokGrpcWS, isOWS d = false := by decide
+
+/-- A request is handled as a WebSocket upgrade (either WebSocket bridge) iff `Connection` contains the
+    `upgrade` token and `Upgrade` names `websocket` — token lists, any case, any number of lines. -/
+theorem C19_ws (h : Hdrs) :
+    (dispatch h = .ws ∨ dispatch h = .grpcws) ↔ IsUpgrade h := by
+  unfold IsUpgrade
+  rw [← headerHasToken_iff _ _ C19_aux_up, ← headerHasToken_iff _ _ C19_aux_ws]
+  unfold dispatch
+  cases h1 : headerHasToken h.connection tokUpgrade <;> cases h2 : headerHasToken h.upgrade tokWebsocket <;>
+    cases h3 : headerHasToken h.protocol tokGrpcWS <;> cases h4 : isGRPCWebContentType (first h.contentType) <;> simp
+
+/-- … as gRPC-WebSocket iff it additionally offers the `grpc-websockets` sub-protocol. -/
+theorem C19_grpcws (h : Hdrs) :
+    dispatch h = .grpcws ↔ IsUpgrade h ∧ HasToken h.protocol tokGrpcWS := by
+  unfold IsUpgrade
+  rw [← headerHasToken_iff _ _ C19_aux_up, ← headerHasToken_iff _ _ C19_aux_ws, ← headerHasToken_iff _ _ C19_aux_gw]
+  unfold dispatch
+  cases h1 : headerHasToken h.connection tokUpgrade <;> cases h2 : headerHasToken h.upgrade tokWebsocket <;>
+    cases h3 : headerHasToken h.protocol tokGrpcWS <;> cases h4 : isGRPCWebContentType (first h.contentType) <;> simp
+
+/-- … as plain (transcoded) WebSocket iff it is an upgrade that does not offer that sub-protocol. -/
+theorem C19_ws_plain (h : Hdrs) :
+    dispatch h = .ws ↔ IsUpgrade h ∧ ¬ HasToken h.protocol tokGrpcWS := by
+  unfold IsUpgrade
+  rw [← headerHasToken_iff _ _ C19_aux_up, ← headerHasToken_iff _ _ C19_aux_ws, ← headerHasToken_iff _ _ C19_aux_gw]
+  unfold dispatch
+  cases h1 : headerHasToken h.connection tokUpgrade <;> cases h2 : headerHasToken h.upgrade tokWebsocket <;>
+    cases h3 : headerHasToken h.protocol tokGrpcWS <;> cases h4 : isGRPCWebContentType (first h.contentType) <;> simp
+
+/-- … as gRPC-Web iff it is not an upgrade and its media type is `application/grpc-web` followed by
+    anything (`+suffix`, `;parameters`, nothing), in any case. -/
+theorem C19_grpcweb (h : Hdrs) :
+    dispatch h = .grpcweb ↔ ¬ IsUpgrade h ∧ BeginsWithFold (first h.contentType) grpcWebBase := by
+  unfold IsUpgrade
+  rw [← headerHasToken_iff _ _ C19_aux_up, ← headerHasToken_iff _ _ C19_aux_ws, ← isGRPCWeb_iff]
+  unfold dispatch
+  cases h1 : headerHasToken h.connection tokUpgrade <;> cases h2 : headerHasToken h.upgrade tokWebsocket <;>
+    cases h3 : headerHasToken h.protocol tokGrpcWS <;> cases h4 : isGRPCWebContentType (first h.contentType) <;> simp
+
+/-- … and as transcoded HTTP otherwise. -/
+theorem C19_http (h : Hdrs) :
+    dispatch h = .http ↔ ¬ IsUpgrade h ∧ ¬ BeginsWithFold (first h.contentType) grpcWebBase := by
+  unfold IsUpgrade
+  rw [← headerHasToken_iff _ _ C19_aux_up, ← headerHasToken_iff _ _ C19_aux_ws, ← isGRPCWeb_iff]
+  unfold dispatch
+  cases h1 : headerHasToken h.connection tokUpgrade <;> cases h2 : headerHasToken h.upgrade tokWebsocket <;>
+    cases h3 : headerHasToken h.protocol tokGrpcWS <;> cases h4 : isGRPCWebContentType (first h.contentType) <;> simp
+
+/-- The specification is satisfiable the way real clients do it: Firefox's
+    `Connection: keep-alive, Upgrade` / `Upgrade: websocket` is an upgrade … -/
+theorem C19_firefox_is_upgrade :
+    IsUpgrade { connection := [[107,101,101,112,45,97,108,105,118,101,44,32,85,112,103,114,97,100,101]],
+                upgrade := [[119,101,98,115,111,99,107,101,116]] } := by
+  rw [← C19_ws]; decide
+
+/-- … which the code before fix D18 sent to the HTTP bridge (kernel-checked negative witness), and so
+    did it with a list-valued sub-protocol offer (`foo, grpc-websockets` ⇒ plain WebSocket) and an
+    upper-case media type (`APPLICATION/GRPC-WEB` ⇒ HTTP). -/
+theorem C19_prefix_dispatch_fails :
+    dispatchPreFix { connection := [[107,101,101,112,45,97,108,105,118,101,44,32,85,112,103,114,97,100,101]],
+                     upgrade := [[119,101,98,115,111,99,107,101,116]] } = .http
+    ∧ dispatchPreFix { connection := [tokUpgrade], upgrade := [tokWebsocket],
+                       protocol := [[102,111,111,44,32] ++ tokGrpcWS] } = .ws
+    ∧ dispatch { connection := [tokUpgrade], upgrade := [tokWebsocket],
+                 protocol := [[102,111,111,44,32] ++ tokGrpcWS] } = .grpcws
+    ∧ dispatchPreFix { contentType := [[65,80,80,76,73,67,65,84,73,79,78,47,71,82,80,67,45,87,69,66]] } = .http
+    ∧ dispatch { contentType := [[65,80,80,76,73,67,65,84,73,79,78,47,71,82,80,67,45,87,69,66]] } = .grpcweb := by
+  decide
+
+/-- Metadata extraction, exactly: under key `k'` the metadata holds the printable values of the
+    `param[k]=v` entries whose `k` is a valid key with `lower k = k'`, in the order the query map is
+    traversed — nothing else becomes metadata (invalid keys, unprintable values, other parameters). -/
+theorem C19_mdquery (param : Bytes) (q : Values) (k' : Bytes) :
+    mdLookup (parseMetadataQuery param q).md k' =
+      collect (if param.isEmpty then defaultParam else param) k' q := by
+  unfold parseMetadataQuery
+  simp only
+  rw [lookup_steps]
+  simp [mdLookup]
+
+/-- Go map iteration order does not matter: for any two traversal orders of the same query the
+    metadata under every key is the same multiset of values. -/
+theorem C19_mdquery_order_independent (param : Bytes) (q₁ q₂ : Values) (hp : q₁.Perm q₂) (k' : Bytes) :
+    (mdLookup (parseMetadataQuery param q₁).md k').Perm (mdLookup (parseMetadataQuery param q₂).md k') := by
+  rw [C19_mdquery, C19_mdquery]
+  unfold collect
+  exact List.Perm.flatMap_right _ hp
+
+/-- The metadata entries are removed from the parameters bound to the message, and only they. -/
+theorem C19_mdquery_removed (param : Bytes) (q : Values) (e : Bytes × List Bytes) :
+    e ∈ (parseMetadataQuery param q).query ↔
+      e ∈ q ∧ isMetaKey (if param.isEmpty then defaultParam else param) e.1 = false := by
+  unfold parseMetadataQuery
+  simp [List.mem_filter]
+
+/-- No key shape can make the slice `k[len(param)+1 : len(k)-1]` go out of range: a key that passes
+    the prefix/suffix test is at least `len(param)+2` long. -/
+theorem C19_mdquery_slice_in_range (param k : Bytes) (h : isMetaKey param k = true) :
+    param.length + 1 ≤ k.length - 1 := by
+  unfold isMetaKey hasPrefix hasSuffix at h
+  simp only [Bool.and_eq_true, beq_iff_eq, decide_eq_true_eq, List.length_cons, List.length_nil] at h
+  obtain ⟨h1, h2, h3⟩ := h
+  have hl : (k.take (param ++ [91]).length).length = (param ++ [91]).length := by rw [h1]
+  simp only [List.length_take, List.length_append, List.length_cons, List.length_nil] at hl
+  -- the byte at index len(param) is '[' and the last byte is ']': they cannot be the same byte
+  by_cases hk : k.length = param.length + 1
+  · exfalso
+    have e1 : k = param ++ [91] := by
+      have := h1
+      rw [List.take_of_length_le (by simp; omega)] at this
+      exact this
+    rw [e1] at h2
+    simp at h2
+  · omega
+
+/-! Facts ties: the constants of the model are the ones in the sources now (regenerated on every run). -/
+
+/-- `ServeHTTP` tests exactly (Connection, upgrade), (Upgrade, websocket), (Sec-WebSocket-Protocol,
+    grpc-websockets) with `headerHasToken`, in this order. -/
+theorem C19_facts_dispatch :
+    GB.Generated.c19DispatchCalls =
+      [ ([67,111,110,110,101,99,116,105,111,110], tokUpgrade.map UInt8.toNat),
+        ([85,112,103,114,97,100,101], tokWebsocket.map UInt8.toNat),
+        ([83,101,99,45,87,101,98,83,111,99,107,101,116,45,80,114,111,116,111,99,111,108], tokGrpcWS.map UInt8.toNat) ]
+    ∧ GB.Generated.c19GrpcWebMediaType = grpcWebBase.map UInt8.toNat := by
+  decide
+
+theorem C19_facts_metadata :
+    GB.Generated.c19MetadataParam = defaultParam.map UInt8.toNat
+    ∧ GB.Generated.c19KeyRanges = [97, 122, 65, 90, 48, 57, 95, 45, 46]
+    ∧ GB.Generated.c19ValueRange = [("<", 0x20), (">", 0x7E)] := by
+  decide
